@@ -80,8 +80,18 @@ func (k *Keeper) SlashAssets(ctx sdk.Context, parameter *types.SlashInputInfo) (
 		return nil, err
 	}
 	// calculate the new slash proportion
-	newSlashProportion := slashUSDValue.Quo(stakingInfo.StakingAndWaitUnbonding)
-	newSlashProportion = sdkmath.LegacyMinDec(sdkmath.LegacyNewDec(1), newSlashProportion)
+	var newSlashProportion sdkmath.LegacyDec
+	switch {
+	case stakingInfo.StakingAndWaitUnbonding.IsPositive():
+		newSlashProportion = slashUSDValue.Quo(stakingInfo.StakingAndWaitUnbonding)
+		newSlashProportion = sdkmath.LegacyMinDec(sdkmath.LegacyNewDec(1), newSlashProportion)
+	case slashUSDValue.IsPositive():
+		// the operator's value has shrunk to nothing since the infraction: whatever dust is
+		// left is at risk, but never divide by zero (this runs in BeginBlock).
+		newSlashProportion = sdkmath.LegacyNewDec(1)
+	default:
+		newSlashProportion = sdkmath.LegacyNewDec(0)
+	}
 
 	executionInfo := &types.SlashExecutionInfo{
 		SlashProportion:    newSlashProportion,
